@@ -528,20 +528,20 @@ func lemma_parseFrame_trans(p *Parser) {
 //@ func (p *Parser) ParseBinaryExpression
 //@   props C11 C16 C02 C01 C05
 //@   use parseFrame ctxStable exprResult
-//@   ensures [operand.level@C02,C05] ncalls("(*Parser).NextToken") == 1 && ncalls("slotExprFn") == 1 && callOrder("(*Parser).NextToken", 0, "slotExprFn", 0) && callArg[int]("slotExprFn", 0, 1) == specLevel(p.precedences, old(p.CurrentToken.Type)) && callArg[*Parser]("slotExprFn", 0, 0) == p
+//@   ensures [operand.level@C02,C03,C05] ncalls("(*Parser).NextToken") == 1 && ncalls("slotExprFn") == 1 && callOrder("(*Parser).NextToken", 0, "slotExprFn", 0) && callArg[int]("slotExprFn", 0, 1) == specLevel(p.precedences, old(p.CurrentToken.Type)) && callArg[*Parser]("slotExprFn", 0, 0) == p
 //@   ensures [node@C01,C08,C15] isType[*ast.BinaryExpression](result) && !isNil(result) && eq(result.(*ast.BinaryExpression).Token, old(p.CurrentToken)) && result.(*ast.BinaryExpression).Operator == old(p.CurrentToken.Literal) && result.(*ast.BinaryExpression).Left == left && result.(*ast.BinaryExpression).Right == callResult[ast.Expression]("slotExprFn", 0)
 
 // Assignment is right associative: the value is parsed from the lowest level again.
 //@ func (p *Parser) ParseAssignmentExpression
 //@   props C11 C16 C02 C01
 //@   use parseFrame ctxStable exprResult
-//@   ensures [operand.level@C02] ncalls("(*Parser).NextToken") == 1 && ncalls("(*Parser).ParseExpression") == 1 && ncalls("slotExprFn") == 0 && callOrder("(*Parser).NextToken", 0, "(*Parser).ParseExpression", 0)
+//@   ensures [operand.level@C02,C03] ncalls("(*Parser).NextToken") == 1 && ncalls("(*Parser).ParseExpression") == 1 && ncalls("slotExprFn") == 0 && callOrder("(*Parser).NextToken", 0, "(*Parser).ParseExpression", 0)
 //@   ensures [node@C01,C08,C15] isType[*ast.AssignmentExpression](result) && !isNil(result) && eq(result.(*ast.AssignmentExpression).Token, old(p.CurrentToken)) && result.(*ast.AssignmentExpression).Left == left && result.(*ast.AssignmentExpression).Value == callResult[ast.Expression]("(*Parser).ParseExpression", 0)
 
 //@ func (p *Parser) ParseCompoundAssignmentExpression
 //@   props C11 C16 C02 C01
 //@   use parseFrame ctxStable exprResult
-//@   ensures [operand.level@C02] ncalls("(*Parser).NextToken") == 1 && ncalls("(*Parser).ParseExpression") == 1 && ncalls("slotExprFn") == 0 && callOrder("(*Parser).NextToken", 0, "(*Parser).ParseExpression", 0)
+//@   ensures [operand.level@C02,C03] ncalls("(*Parser).NextToken") == 1 && ncalls("(*Parser).ParseExpression") == 1 && ncalls("slotExprFn") == 0 && callOrder("(*Parser).NextToken", 0, "(*Parser).ParseExpression", 0)
 //@   ensures [node@C01,C08,C15] isType[*ast.CompoundAssignmentExpression](result) && !isNil(result) && eq(result.(*ast.CompoundAssignmentExpression).Token, old(p.CurrentToken)) && result.(*ast.CompoundAssignmentExpression).Left == left && result.(*ast.CompoundAssignmentExpression).Value == callResult[ast.Expression]("(*Parser).ParseExpression", 0)
 //@   ensures [operator@C01] implies(old(p.CurrentToken.Type) == token.PLUS_ASSIGN, result.(*ast.CompoundAssignmentExpression).Operator == "+") && implies(old(p.CurrentToken.Type) == token.MINUS_ASSIGN, result.(*ast.CompoundAssignmentExpression).Operator == "-")
 
